@@ -158,6 +158,8 @@ static std::string P(const char *a, int x, const char *b, int y) { return P(a, x
 
 // bodies: what the member functions of VectorImpl / DynamicVector do between adjustCapacity and setSize -----------------
 // insert(const_iterator, size_type count, const_reference v), v not an element of the vector, no growth
+// (the body after "fix: insert of several elements before end() leaves the vector unchanged when an element copy throws":
+// the fill is wrapped in try / catch, the handler calls vec::unshift_right)
 static long insertCount(T *buf, int size, int pos, int count, const T &v) {
   T *p = buf + pos;
   if (count > 0) {
@@ -166,7 +168,12 @@ static long insertCount(T *buf, int size, int pos, int count, const T &v) {
       std::uninitialized_fill_n(p, static_cast<SizeType>(count), v);
     } else {
       amc::vec::shift_right(p, nElemsToShift, static_cast<SizeType>(count));
-      amc::vec::fill_after_shift(p, nElemsToShift, static_cast<SizeType>(count), v);
+      try {
+        amc::vec::fill_after_shift(p, nElemsToShift, static_cast<SizeType>(count), v);
+      } catch (...) {
+        amc::vec::unshift_right(p, nElemsToShift, static_cast<SizeType>(count));
+        throw;
+      }
     }
     return size + count;
   }
